@@ -394,14 +394,13 @@ func cmdCheck(args []string) int {
 			dropped[d] = true
 		}
 	}
+	// trusted base: the assumed contracts / effect declarations / models this run actually used
+	// (recorded as notes while generating the obligations of the functions of this property)
 	var trusted []string
-	for _, k := range sortedKeys(eng.cs.Funcs) {
-		if eng.cs.Funcs[k].Trusted {
-			trusted = append(trusted, "assumed contract: "+k)
+	for _, a := range sortedBoolKeys(assume) {
+		if strings.HasPrefix(a, "assumed ") || strings.HasPrefix(a, "trusted model") {
+			trusted = append(trusted, a)
 		}
-	}
-	for _, k := range sortedKeys(eng.cs.Ifaces) {
-		trusted = append(trusted, "assumed interface contract: "+k)
 	}
 	trusted = append(trusted, "go/types + go/ssa (x/tools v0.29.0) translation of the source", "govc VC generator (this directory)", "SMT solvers z3 4.8.12, z3 5.1.0, cvc5 1.0.x")
 	var samples []interface{}
